@@ -23,6 +23,7 @@ type PropConfig struct {
 	ID            string        `json:"id"`
 	Packages      []string      `json:"packages"`
 	Functions     []string      `json:"functions,omitempty"` // optional explicit list; default: all contracts in zz_verif_<id>.go files
+	Instantiate   []string      `json:"instantiate,omitempty"` // generic types whose methods are loaded as instances ("pkg.Type[int64]")
 	Inline        []string      `json:"inline,omitempty"`
 	NoInline      []string      `json:"noinline,omitempty"`
 	MaxPaths      int           `json:"max_paths,omitempty"`
@@ -145,6 +146,7 @@ func runCheck(id, tier string, seed int, propose, verbose bool) int {
 		violations = append(violations, line)
 	}
 
+	ExtraInstances = cfg.Instantiate
 	P, err := LoadProgram(cfg.Packages)
 	if err != nil {
 		// the tree does not load (does not compile with the contract files): every ledger obligation is unbound
